@@ -43,7 +43,8 @@ def _c25(ctx):
         for stem in ("Gen_Rrdp", "Gen_Rrdp_dirty", "Gen_Rrdp_gap"):
             cfg = stem + ("_thorough.cfg" if t else ".cfg")
             gen = lib.tlc(ctx, cfg[:-4].lower(), "Gen_Rrdp.tla", cfg, workers=4, timeout=3000, count=False,
-                          env_extra={"RRDP_VARIANT": variant})
+                          env_extra={"RRDP_VARIANT": variant},
+                          cacheable=(cfg != "Gen_Rrdp_dirty_thorough.cfg"))      # 400 MB of output: not worth caching
             part = ctx.path(stem + ".ndjson")
             n = lib.extract_replays(gen["out"], part)
             if n == 0:
@@ -58,7 +59,10 @@ def _c25(ctx):
     res = lib.vh(ctx, "rrdp", beh, opts={"mode": "c25", "limit": limit, "jobs": 8}, cacheable=True, timeout=3400)
     r = res["per_property"]["C25"]
     mism = r.get("notes", {}).get("model_mismatches", 0)
-    if mism > 0.01 * max(1, r.get("evaluations", 1)):
+    known = lib.load_known()
+    unlisted = [v for v in r.get("violations", []) if ("C25", v.get("sig", "?")) not in known]
+    # many differences from the model without any contradiction of the property = the model does not describe this tree
+    if not unlisted and mism > 0.01 * max(1, r.get("evaluations", 1)):
         raise lib.ToolError("%d of %d client runs differ from Rrdp.tla (%s): model fidelity problem"
                             % (mism, r.get("evaluations", 0), variant))
     ctx.assumptions += [
@@ -165,6 +169,6 @@ CHECKS = {
                          "replayed with really produced RRDP outcomes",
             "design_ref": "4/C29",
             "level_note": "Outcomes are produced through the server double and real waiting (3.3 s once); one CA per row, one "
-                          "validation thread.",
+                          "thread; the thorough tier repeats every row with two CAs of the same repository looked up by two threads.",
             "level_text": "The full product policy x outcome x RRDP on/off x rsync on/off x rpkiNotify yes/no (96 rows)."},
 }
